@@ -127,9 +127,11 @@ def r_fallbacks(chk, P, tier):
             first, second = inner[2]
             ok = second == ("fn", "offset::local::inner::fallback_timezone") and any(is_call(x, name=T + "local") and arg_field(x[2][0]) == (1, None) for x in walk_terms(first))
     chk.expect(ok, "current_zone", "current_zone is %s" % [pp(x)[:200] for x in r], loc=P.loc(fn))
-    d = [n for n in P.fns if n.startswith("<offset::local::inner::Cache as std::default::Default>::default")]
-    cs = callees(P, d[0]) if d else set()
-    chk.expect("std::env::var" in cs and "offset::local::inner::current_zone" in cs, "Cache::default", "Cache::default does not read TZ and select the zone")
+    # the initial cache (Default::default or a private constructor): whichever function builds a Cache from nothing reads TZ and selects the zone through current_zone
+    builders = [n for n in P.fns if P.has(n) and n.startswith(("<offset::local::inner::Cache as", "offset::local::inner::Cache::")) and "{" not in n
+                and "offset::local::inner::current_zone" in callees(P, n) and n.split("::")[-1] not in ("offset",)]
+    ok = any("std::env::var" in callees(P, n) for n in builders)
+    chk.expect(ok, "Cache::default", "no constructor of Cache reads TZ (std::env::var) and selects the zone through current_zone (found: %s)" % [b.split("::")[-1] for b in builders])
 
 
 def r_dispatch(chk, P, tier):
@@ -187,7 +189,13 @@ def r_dispatch(chk, P, tier):
         raise AnchorLost("from_posix_tz: no path parses a TZ rule")
     chk.expect(bad_ == 0, "file lookup before rule", "from_posix_tz parses the string as a POSIX rule on %d of %d paths without having tried it as a zone file name first" % (bad_, nr), loc=P.loc(fn))
     loc = [p.ret for p in Sym(P, T + "local").paths() if p.end[0] == "return"]
-    ok = any(any(is_call(x, name=fn) for x in walk_terms(r)) for r in loc) and any(any(is_call(x, name=fn) and const_of(unref(x[2][0])) == "localtime" for x in walk_terms(r)) for r in loc)
+    def to_localtime(x):
+        """from_posix_tz("localtime"), or from_posix_tz(env_tz.unwrap_or("localtime"))"""
+        if not is_call(x, name=fn):
+            return False
+        a = unref(x[2][0])
+        return const_of(a) == "localtime" or (is_call(a, suffix="::unwrap_or") and const_of(unref(a[2][1])) == "localtime" and arg_field(unref(a[2][0])) == (1, None))
+    ok = any(any(is_call(x, name=fn) for x in walk_terms(r)) for r in loc) and any(any(to_localtime(x) for x in walk_terms(r)) for r in loc)
     chk.expect(ok, "TimeZone::local", "TimeZone::local(None) does not fall back to from_posix_tz(\"localtime\")")
 
 
